@@ -1639,6 +1639,107 @@ fn judge_c10(rep: &mut Report, sc: &Scenario, live: &Live, recs: &[Rec], point: 
     }
 }
 
+/// C11's clause on the schedules in which an author's own deletion request races with the store of what it covers:
+/// once the request has been accepted, every event it covers (the `e` target of that author; events at its own
+/// address created no later than the request) is unretrievable and marked, however the two calls interleaved - the
+/// covered event may have been refused or removed, but it must not be there.
+fn judge_c11(rep: &mut Report, sc: &Scenario, live: &Live, recs: &[Rec], point: &str, blocked: bool) {
+    let mut h = vec![];
+    h.extend_from_slice(sc.name.as_bytes());
+    h.extend_from_slice(point.as_bytes());
+    h.push(blocked as u8);
+    rep.eval(fnv(&h), true);
+    rep.count("schedules_explored");
+    let desc = |recs: &[Rec]| recs.iter().map(|r| format!("T{} {}[{}..{}] -> {:?}", r.thread, r.op.kind(), r.call, r.ret, r.res)).collect::<Vec<_>>().join("; ");
+    let mut accepted: BTreeSet<usize> = BTreeSet::new();
+    for r in recs {
+        if let (Opk::Store(i), Res::Store(Outcome::Ok(_))) = (&r.op, &r.res) {
+            let _ = accepted.insert(*i);
+        }
+    }
+    let store = &live.ctx.store;
+    let rp = json!({"kind":"c11-schedule","scenario":sc.name,"point":point});
+    for (di, d) in sc.events.iter().enumerate() {
+        if d.sem.kind != 5 || !accepted.contains(&di) {
+            continue;
+        }
+        rep.count("accepted_deletion_requests_judged");
+        let mut covered: Vec<&Rc<Ev>> = vec![];
+        for tag in d.sem.tags.iter().filter(|t| t.len() >= 2) {
+            if tag[0] == "e" {
+                if let Some(t) = sc.events.iter().find(|e| hex(&e.sem.id) == tag[1] && e.sem.pubkey == d.sem.pubkey && e.sem.kind != 5) {
+                    covered.push(t);
+                }
+            } else if tag[0] == "a" {
+                let parts: Vec<&str> = tag[1].splitn(3, ':').collect();
+                if parts.len() == 3 && parts[1] == hex(&d.sem.pubkey) {
+                    if let Ok(kind) = parts[0].parse::<u16>() {
+                        for e in sc.events.iter() {
+                            if e.sem.kind == kind && e.sem.pubkey == d.sem.pubkey && e.sem.created_at <= d.sem.created_at && addr_of(&e.sem).map(|a| a.d == parts[2].as_bytes()).unwrap_or(false) {
+                                covered.push(e);
+                            }
+                        }
+                    }
+                }
+            }
+        }
+        for t in covered {
+            let id = Id::from_bytes(t.sem.id);
+            let there = !matches!(store.has_event(id), Ok(false)) || !matches!(store.get_event_by_id(id), Ok(None));
+            rep.count("covered_events_checked_after_an_accepted_request");
+            if there {
+                rep.finding(
+                    "covered-event-retrievable-after-accepted-deletion-request:concurrent",
+                    &format!("scenario {} with A paused at {point} (others {}): the request {} was accepted, yet the event {} it covers is still retrievable. Observed: {}", sc.name, if blocked { "blocked" } else { "ran" }, d.short(), t.short(), desc(recs)),
+                    rp.clone(),
+                );
+            }
+        }
+    }
+}
+
+pub fn run_c11(args: &Args) -> Report {
+    let mut rep = Report::new("C11", &args.leg(), &args.tier(), args.seed());
+    install_handler();
+    JITTER_US.store(0, Ordering::Relaxed);
+    let mut rng = Rng::new(args.seed() ^ 0xC14);
+    let scs = catalogue(&mut rng);
+    let wanted = |n: &str| (n.contains("delete") || n.contains("target")) && !n.contains("foreign") && !n.contains("mixed");
+    for (si, sc) in scs.iter().enumerate().filter(|(_, sc)| wanted(&sc.name)) {
+        let (live, recs, census, _, hung) = match run_scheduled(sc, None, &format!("c11s{si}_census")) {
+            Some(x) => x,
+            None => {
+                rep.inconclusive.push(format!("scenario {} could not be set up", sc.name));
+                continue;
+            }
+        };
+        if hung {
+            rep.inconclusive.push(format!("scenario {} made no progress (hangs are C14's subject)", sc.name));
+            break;
+        }
+        judge_c11(&mut rep, sc, &live, &recs, "census(no pause)", false);
+        teardown(live);
+        for (pi, (pname, pocc)) in census.iter().enumerate() {
+            let (live, recs, _, blocked, hung) = match run_scheduled(sc, Some((pname.to_string(), *pocc)), &format!("c11s{si}_p{pi}")) {
+                Some(x) => x,
+                None => continue,
+            };
+            if hung {
+                rep.inconclusive.push(format!("scenario {} paused at {pname}#{pocc} made no progress (hangs are C14's subject)", sc.name));
+                pocket_db::verif::set_point_handler(None);
+                return rep;
+            }
+            rep.count(if blocked { "schedules_where_B_blocked_behind_A" } else { "schedules_where_B_ran_while_A_was_parked" });
+            judge_c11(&mut rep, sc, &live, &recs, &format!("{}#{}", pname, pocc), blocked);
+            teardown(live);
+        }
+    }
+    pocket_db::verif::set_point_handler(None);
+    rep.require("schedules_where_B_blocked_behind_A", "no schedule in which the second operation blocked behind the paused one");
+    rep.require("covered_events_checked_after_an_accepted_request", "no schedule in which a deletion request with a covered event was accepted");
+    rep
+}
+
 pub fn run_c10(args: &Args) -> Report {
     let mut rep = Report::new("C10", &args.leg(), &args.tier(), args.seed());
     install_handler();
